@@ -52,6 +52,8 @@ class StackRig:
         self.reset_notes = []  # (t, code, what) every reset_received/error notification from the real AshProtocol
         self.on_host_frame = None  # callable(frame tuple) after each well-formed host write
         self.sent_payloads = []  # (t, bytes) every EZSP frame handed to Gateway.send_data
+        self.on_send_data = None  # callable(bytes) at entry of Gateway.send_data (runs in the caller's task)
+        self.on_send_done = None  # callable(bytes, exc) when Gateway.send_data returns or raises
         self.line.h2n.sink = self.ncp_ash.feed
         self.line.n2h.sink = self._to_host
         zigpy.serial.create_serial_connection = self._create_serial_connection
@@ -82,7 +84,17 @@ class StackRig:
         async def send_data(data):
             rig.sent_payloads.append((rig.loop.time(), bytes(data)))
             rig.log.append((rig.loop.time(), "gw_send_data", bytes(data).hex()))
-            return await orig_send(data)
+            if rig.on_send_data is not None:
+                rig.on_send_data(bytes(data))
+            try:
+                r = await orig_send(data)
+            except BaseException as e:
+                if rig.on_send_done is not None:
+                    rig.on_send_done(bytes(data), e)
+                raise
+            if rig.on_send_done is not None:
+                rig.on_send_done(bytes(data), None)
+            return r
 
         gw.send_data = send_data
 
